@@ -171,6 +171,7 @@ type World struct {
 	lastNow  time.Time
 	Values   map[string]any // harness/shim attachments (snet, sfs ...)
 	KnobFn   func(name string, def int) int // R8: per-run queue capacities (nil = shipped values)
+	PanicOK  func(r any) bool               // panics the scenario declares to be deliberate crashes outside the property's scope
 	main     *Task
 }
 
@@ -443,6 +444,11 @@ func Exit(t *Task) {
 		buf := make([]byte, 6000)
 		n := runtime.Stack(buf, false)
 		w.mu.Lock()
+		if w.failure == nil && !w.dead && w.PanicOK != nil && w.PanicOK(r) {
+			// a crash the code under test performs on purpose in a situation its documentation
+			// excludes: the process would be gone; the run ends without a verdict and is counted
+			w.failure = &Failure{Rule: DiscardRule, Detail: fmt.Sprintf("goroutine %s panicked by design: %v", t.ID, r), Step: w.steps, SimNS: int64(time.Since(w.start))}
+		}
 		if w.failure == nil && !w.dead {
 			w.failure = &Failure{Rule: "panic", Detail: fmt.Sprintf("goroutine %s panicked: %v\n%s", t.ID, r, buf[:n]), Step: w.steps, SimNS: int64(time.Since(w.start))}
 		}
@@ -755,6 +761,9 @@ func Now() time.Time {
 	w.mu.Unlock()
 	return t
 }
+
+// DiscardRule marks a run that ended without a verdict (see World.PanicOK).
+const DiscardRule = "__discarded__"
 
 // Knob stands in for a literal queue capacity in instrumented code (rule R8): def unless the
 // harness of the run in progress installed a KnobFn, which then decides (from the choice
